@@ -6,6 +6,7 @@ import (
 	"fmt"
 	"os"
 	"runtime/debug"
+	"strconv"
 
 	"verif/checks"
 	"verif/internal/ev"
@@ -29,6 +30,17 @@ func main() {
 		for _, id := range checks.IDs() {
 			fmt.Println(id, checks.Get(id).Variant, checks.Get(id).Level)
 		}
+	case "native":
+		if len(os.Args) < 3 {
+			usage()
+		}
+		checks.C07Native(os.Args[2])
+	case "c07shard":
+		if len(os.Args) < 4 {
+			usage()
+		}
+		dev, _ := strconv.Atoi(os.Args[3])
+		checks.C07Shard(os.Args[2], dev)
 	case "variant":
 		if len(os.Args) < 3 || checks.Get(os.Args[2]) == nil {
 			usage()
